@@ -529,3 +529,159 @@ func isConstVal(v ssa.Value) bool {
 	_, ok := v.(*ssa.Const)
 	return ok
 }
+
+// ---------------------------------------------------------------------------
+// R-RUNE0-VALIDATED (C05; added after seed C05i): `[]rune(a.String())[0]` panics for the empty atom. Where a
+// built-in takes the first character of an atom argument without a length test on that very slice, the length of
+// the same ARGUMENT's name was tested earlier in the function: somewhere in it the number of characters of an atom
+// resolved from the same parameter (len([]rune(x.String())) or utf8.RuneCountInString(x.String())) is compared
+// with a constant in a way that sends the count 0 to a branch from which the indexing cannot be reached. A test
+// `> 1` lets the empty atom through to the indexing; the recovered panic comes back as a Go error, not a term.
+func ruleRune0Validated(c *Ctx, r *Report) {
+	const rule = "R-RUNE0-VALIDATED"
+	desc := "the first character of an atom argument is taken only after its length was tested"
+	resolve := c.method("Env", "Resolve")
+	// the parameter an atom's name comes from: String() on an assertion to Atom of Resolve(param)
+	paramOfName := func(v ssa.Value) *ssa.Parameter {
+		call, ok := v.(*ssa.Call)
+		if !ok || call.Call.StaticCallee() == nil || c.stableFuncName(call.Call.StaticCallee()) != "String" || recvNamed(call.Call.StaticCallee()) != "Atom" {
+			return nil
+		}
+		var out *ssa.Parameter
+		for _, l := range c.originSet(call.Call.Args[0]) {
+			if e, ok := l.(*ssa.Extract); ok {
+				l = e.Tuple
+			}
+			rc, ok := l.(*ssa.Call)
+			if !ok || rc.Call.StaticCallee() != resolve || len(rc.Call.Args) < 2 {
+				return nil
+			}
+			p, ok := rc.Call.Args[1].(*ssa.Parameter)
+			if !ok {
+				return nil
+			}
+			out = p
+		}
+		return out
+	}
+	// the count of characters of a name: len([]rune(name)) or utf8.RuneCountInString(name)
+	countOf := func(v ssa.Value) ssa.Value {
+		call, ok := v.(*ssa.Call)
+		if !ok {
+			return nil
+		}
+		if b, ok := call.Call.Value.(*ssa.Builtin); ok && b.Name() == "len" {
+			if cv, ok := call.Call.Args[0].(*ssa.Convert); ok {
+				return cv.X
+			}
+		}
+		if callee := call.Call.StaticCallee(); callee != nil && callee.Pkg != nil && callee.Pkg.Pkg.Path() == "unicode/utf8" && callee.Name() == "RuneCountInString" {
+			return call.Call.Args[0]
+		}
+		return nil
+	}
+	n := 0
+	for _, fn := range c.LibFuncs() {
+		if funcPkg(fn) != c.Engine {
+			continue
+		}
+		k := 0
+		eachInstr(fn, func(in ssa.Instruction) {
+			ia, ok := in.(*ssa.IndexAddr)
+			if !ok {
+				return
+			}
+			if kk, isConst := constInt(ia.Index); !isConst || kk != 0 {
+				return
+			}
+			cv, ok := ia.X.(*ssa.Convert)
+			if !ok {
+				return
+			}
+			p := paramOfName(cv.X)
+			if p == nil {
+				return
+			}
+			n++
+			k++
+			key := fmt.Sprintf("%s/[]rune(%s)[0]#%d", fname(fn), p.Name(), k)
+			// a local test on this very slice?
+			rg := c.rangeAt(in.Block(), nil)
+			_ = rg
+			local := false
+			for f := range c.factsAt(in.Block()) {
+				if x, op, kk, ok := cmpConst(f.cond); ok {
+					if call, ok := x.(*ssa.Call); ok {
+						if b, ok := call.Call.Value.(*ssa.Builtin); ok && b.Name() == "len" && call.Call.Args[0] == ssa.Value(cv) {
+							if (op == token.NEQ && kk == 1 && !f.pol) || (op == token.EQL && kk == 1 && f.pol) || (op == token.GTR && kk == 0 && f.pol) || (op == token.EQL && kk == 0 && !f.pol) || (op == token.NEQ && kk == 0 && f.pol) {
+								local = true
+							}
+						}
+					}
+				}
+			}
+			if local {
+				r.ok(rule, key, c.at(in), desc, "under a length fact about the slice itself", true)
+				return
+			}
+			// an earlier test on the same parameter's name that sends the count 0 away from here
+			validated := false
+			top := topFunc(fn)
+			for _, g := range withAnon(top) {
+				eachInstr(g, func(in2 ssa.Instruction) {
+					bo, ok := in2.(*ssa.BinOp)
+					if !ok {
+						return
+					}
+					x, op, kk, ok := cmpConst(bo)
+					if !ok {
+						return
+					}
+					name := countOf(x)
+					if name == nil || paramOfName(name) != p {
+						return
+					}
+					// on which outcome is the count 0?  zeroTrue: the comparison is true for 0
+					var zeroTrue bool
+					switch op {
+					case token.NEQ:
+						zeroTrue = kk != 0
+					case token.EQL:
+						zeroTrue = kk == 0
+					case token.LSS:
+						zeroTrue = 0 < kk
+					case token.LEQ:
+						zeroTrue = 0 <= kk
+					case token.GTR:
+						zeroTrue = 0 > kk
+					case token.GEQ:
+						zeroTrue = 0 >= kk
+					default:
+						return
+					}
+					for _, ref := range *bo.Referrers() {
+						iff, ok := ref.(*ssa.If)
+						if !ok {
+							continue
+						}
+						succ := iff.Block().Succs[1]
+						if zeroTrue {
+							succ = iff.Block().Succs[0]
+						}
+						if g != fn || !reachableFromAvoiding2(succ, in.Block()) {
+							validated = true
+						}
+					}
+				})
+			}
+			if validated {
+				r.ok(rule, key, c.at(in), desc, "the count of characters of the same argument is tested earlier, and the count 0 does not reach this place", true)
+			} else {
+				r.bad(rule, key, c.at(in), desc, "no test in the function sends an empty name of this argument elsewhere: for the atom '' the indexing panics, and the recovered panic is returned as a Go error instead of an error term")
+			}
+		})
+	}
+	if n == 0 {
+		r.info(rule, "scan/first-character", "-", desc, "no built-in takes the first character of an atom argument this way")
+	}
+}
